@@ -35,6 +35,7 @@ struct Run {
     prefix_deletes: u64,
     get_muts: u64,
     checkpoints_unmaterialised: u64,
+    direct_freezes: u64,
     reads: u64,
 }
 
@@ -224,11 +225,24 @@ fn step(run: &mut Run, r: &mut Rng, miri: bool) -> Result<(), String> {
         }
         25 | 26 => {
             if let Some((p, m)) = run.stack.pop() {
-                run.hist.push("rollback".into());
                 run.state = p;
                 run.model = m;
                 run.rollbacks += 1;
-                full_check(run, r, "after rollback")?;
+                if run.stack.is_empty() && r.chance(1, 3) {
+                    // roll back and freeze the parent at once, without touching it in between
+                    run.hist.push("rollback, then freeze directly".into());
+                    let p = run.state.freeze(&mut run.loader, &mut EmptyCollector);
+                    run.freezes += 1;
+                    run.direct_freezes += 1;
+                    run.reads += check_persistent(&p, &mut run.loader, &run.model, "freeze directly after rollback").map_err(|e| fail(run, e))?;
+                    check_ancestors(run, "freeze directly after rollback")?;
+                    run.state = p.thaw();
+                } else {
+                    run.hist.push("rollback".into());
+                    if r.chance(2, 3) {
+                        full_check(run, r, "after rollback")?;
+                    }
+                }
             }
         }
         27 => {
@@ -243,7 +257,9 @@ fn step(run: &mut Run, r: &mut Rng, miri: bool) -> Result<(), String> {
         _ => {
             if run.stack.is_empty() {
                 run.hist.push("freeze".into());
-                full_check(run, r, "before freeze")?;
+                if r.chance(1, 2) {
+                    full_check(run, r, "before freeze")?;
+                }
                 let mut sc = SizeCollector::default();
                 let mut p = run.state.freeze(&mut run.loader, &mut sc);
                 run.freezes += 1;
@@ -297,6 +313,7 @@ pub fn run(ctx: &ChildCtx, sh: &mut Shard) {
             prefix_deletes: 0,
             get_muts: 0,
             checkpoints_unmaterialised: 0,
+            direct_freezes: 0,
             reads: 0,
         };
         let res = vmon_core::catch(|| {
@@ -328,6 +345,7 @@ pub fn run(ctx: &ChildCtx, sh: &mut Shard) {
         sh.add("ops.delete_prefix", run.prefix_deletes);
         sh.add("ops.get_mut", run.get_muts);
         sh.add("ops.checkpoint_unmaterialised", run.checkpoints_unmaterialised);
+        sh.add("ops.freeze_directly_after_rollback", run.direct_freezes);
         sh.max("max.model_size", run.model.len() as u64);
         let hist_text = run.hist.log.join("; ");
         let h = vmon_core::fnv(hist_text.as_bytes());
